@@ -8,6 +8,7 @@ from rules import misc as M
 from rules import durability as D
 from rules import operators as OP
 from rules import builders as B
+from rules import tables as T
 
 
 def run(ctx):
@@ -32,6 +33,7 @@ def run(ctx):
     ctx.run(B.pan7_empty_batch_is_applicable)
     ctx.run(B.flw24_integer_builder_differences)
     ctx.run(B.nul6_mixed_buffer_keeps_row_slots)
+    ctx.run(T.tbl17_constant_translation_is_inverse)
     return ctx.finish(
         'Static analysis of compiler MIR: deadlock-freedom clauses (acyclic lock-order graph over '
         'all lock identities, no guard across blocking calls except tabled sites, paired condvar '
